@@ -1242,6 +1242,8 @@ class Mini:
                 return (a0 in recv) if nm == "contains" else recv.startswith(a0) if nm == "starts_with" else recv.endswith(a0)
         if nm == "contains" and isinstance(recv, tuple) and recv and recv[0] in ("range", "rangeincl") and len(args) == 1 and all(isinstance(x, int) and not isinstance(x, bool) for x in (recv[1], recv[2], args[0])):
             return recv[1] <= args[0] <= recv[2] if recv[0] == "rangeincl" else recv[1] <= args[0] < recv[2]
+        if nm in ("to_bits", "from_bits") and not args and p.startswith(("std::f32::<impl f32>::", "std::f64::<impl f64>::", "core::f32::<impl f32>::")):
+            return recv  # a float and its bit image are the same abstract word
         if nm == "get" and not args and "NonZero" in p:
             return recv  # NonZero<T>::get: the integer itself
         if nm in ("get", "first", "last") and isinstance(recv, list) and p.startswith(("std::slice::<impl [T]>::", "std::vec::Vec")):
